@@ -385,5 +385,6 @@ pub fn preflight() -> Result<usize, String> {
     if !c.failed.is_empty() {
         return Err(format!("reference model failed calibration on {} AWS vectors: {}", c.failed.len(), truncate(&c.failed[0], 400)));
     }
+    crate::mon::self_test()?;
     Ok(c.ok)
 }
